@@ -22,7 +22,10 @@ Proof.
   unfold gen_modes_odd.
   assert (H : forall n : nat, (0 <? Z.of_nat n mod 2) = Nat.odd n).
   { intros n. rewrite Zmod_odd, zodd_nat. destruct (Nat.odd n); reflexivity. }
-  rewrite !H. reflexivity.
+  (* the same test written as the truth value of the int `n % 2` (translated as negb (n mod 2 =? 0)) *)
+  assert (H' : forall n : nat, negb (Z.of_nat n mod 2 =? 0) = Nat.odd n).
+  { intros n. rewrite Zmod_odd, zodd_nat. destruct (Nat.odd n); reflexivity. }
+  rewrite ?H, ?H'. reflexivity.
 Qed.
 
 Lemma bridge_clamp_cond (nlx nly nxe nye : nat) :
